@@ -19,6 +19,7 @@ use std::collections::hash_map::DefaultHasher;
 use std::collections::HashMap;
 use std::hash::{Hash, Hasher};
 use std::sync::{Arc, Weak};
+use std::fmt::Write as _;
 
 const NONE_ID: u64 = 2;
 const MAX_ID: u64 = (1 << 63) - 1;
@@ -156,6 +157,10 @@ impl HS {
 }
 
 struct NameWorld {
+    /// the public API offers several routes to the same operation (Name::new / TryFrom<&str> / TryFrom<String> /
+    /// serde; clone / From<&Name> / to_component; …): successive operations rotate through them
+    route: usize,
+    routes_used: Vec<&'static str>,
     slots: Vec<HS>,
     /// one witness per string allocation created in this history
     wit: Vec<Weak<str>>,
@@ -164,7 +169,7 @@ struct NameWorld {
 
 impl NameWorld {
     fn new(pool: usize) -> Self {
-        NameWorld { slots: (0..pool).map(|_| HS::Empty).collect(), wit: vec![], fails: vec![] }
+        NameWorld { route: 0, routes_used: vec![], slots: (0..pool).map(|_| HS::Empty).collect(), wit: vec![], fails: vec![] }
     }
     fn fail(&mut self, key: &str, what: String) {
         if self.fails.len() < 4 {
@@ -193,6 +198,7 @@ impl NameWorld {
     }
 
     fn step(&mut self, op: &NOp, spans: &mut Spans) -> &'static str {
+        self.route += 1;
         match op {
             NOp::NewName(d, t) => {
                 if !self.free(*d) { return "skip"; }
@@ -202,7 +208,15 @@ impl NameWorld {
             }
             NOp::NewChecked(d, t) => {
                 if !self.free(*d) { return "skip"; }
-                match Name::new(t) {
+                let (made, route) = match self.route % 5 {
+                    0 => (Name::new(t).ok(), "new"),
+                    1 => (Name::try_from(t.as_str()).ok(), "try_from_str"),
+                    2 => (Name::try_from(t.clone()).ok(), "try_from_string"),
+                    3 => (Name::try_from(t).ok(), "try_from_string_ref"),
+                    _ => (serde_json::from_value::<Name>(serde_json::Value::String(t.clone())).ok(), "deserialize"),
+                };
+                self.routes_used.push(route);
+                match made.ok_or(()) {
                     Ok(n) => {
                         if !spec_valid_name(t) { self.fail("name-validity", format!("Name::new accepted {t:?}")); }
                         self.adopt_new_heap_name(*d, n, t);
@@ -216,7 +230,13 @@ impl NameWorld {
             }
             NOp::NewStatic(d, i) => {
                 if !self.free(*d) { return "skip"; }
-                let n = Name::new_static_unchecked(STATICS[*i]);
+                let n = if self.route % 2 == 0 && spec_valid_name(STATICS[*i]) {
+                    self.routes_used.push("new_static");
+                    match Name::new_static(STATICS[*i]) { Ok(n) => n, Err(_) => { self.fail("name-validity", format!("Name::new_static rejected {:?}", STATICS[*i])); Name::new_static_unchecked(STATICS[*i]) } }
+                } else {
+                    if self.route % 2 == 0 && Name::new_static(STATICS[*i]).is_ok() { self.fail("name-validity", format!("Name::new_static accepted {:?}", STATICS[*i])); }
+                    Name::new_static_unchecked(STATICS[*i])
+                };
                 self.slots[*d] = HS::Name { n, cell: None, text: STATICS[*i].to_string(), loc: None };
                 "ok"
             }
@@ -252,7 +272,16 @@ impl NameWorld {
                 if !self.free(*d) || *s >= self.slots.len() { return "skip"; }
                 let new = match &self.slots[*s] {
                     HS::Empty => return "skip",
-                    HS::Name { n, cell, text, loc } => HS::Name { n: n.clone(), cell: *cell, text: text.clone(), loc: *loc },
+                    HS::Name { n, cell, text, loc } => {
+                        let (c, route) = match self.route % 4 {
+                            0 => (n.clone(), "clone"),
+                            1 => (Name::from(n), "from_ref"),
+                            2 => (n.to_component(apollo_compiler::schema::ComponentOrigin::Definition).name, "to_component"),
+                            _ => (AsRef::<Name>::as_ref(n).clone(), "as_ref_clone"),
+                        };
+                        self.routes_used.push(route);
+                        HS::Name { n: c, cell: *cell, text: text.clone(), loc: *loc }
+                    }
                     HS::Arc { a, cell, text } => HS::Arc { a: a.clone(), cell: *cell, text: text.clone() },
                 };
                 self.slots[*d] = new;
@@ -372,6 +401,18 @@ impl NameWorld {
             let HS::Name { n: na, text: ta, .. } = a else { continue };
             if hash_of(na) != hash_of(ta.as_str()) { fails.push(("name-eq-hash".into(), format!("slot {i}: hash differs from the hash of its text {ta:?}"))); }
             if *na != *ta.as_str() { fails.push(("name-eq-hash".into(), format!("slot {i}: name != its text {ta:?}"))); }
+            if na != &ta.as_str() || na.partial_cmp(ta.as_str()) != Some(std::cmp::Ordering::Equal) || na.partial_cmp(&"a") != ta.as_str().partial_cmp("a") {
+                fails.push(("name-eq-hash".into(), format!("slot {i}: comparison with &str differs from the comparison of its text {ta:?}")));
+            }
+            if na.to_string() != *ta || format!("{na:?}") != format!("{ta:?}") || &**na != ta.as_str() || AsRef::<str>::as_ref(na) != ta.as_str() {
+                fails.push(("name-text".into(), format!("slot {i}: Display / Debug / Deref / AsRef<str> do not give the supplied text {ta:?}")));
+            }
+            if serde_json::to_value(na).ok() != Some(serde_json::Value::String(ta.clone())) { fails.push(("name-text".into(), format!("slot {i}: serializes to something else than its text {ta:?}"))); }
+            // Borrow<str>: a map keyed by names is looked up with the text
+            let mut m: HashMap<Name, usize> = HashMap::new();
+            m.insert(na.clone(), i);
+            if m.get(ta.as_str()) != Some(&i) { fails.push(("name-eq-hash".into(), format!("slot {i}: a HashMap<Name, _> entry is not found through its text {ta:?}"))); }
+            drop(m);
             for (j, b) in self.slots.iter().enumerate().skip(i + 1) {
                 let HS::Name { n: nb, text: tb, .. } = b else { continue };
                 if (na == nb) != (ta == tb) { fails.push(("name-eq-hash".into(), format!("slots {i},{j}: == is {}, texts {ta:?} {tb:?}", na == nb))); }
@@ -418,6 +459,7 @@ fn run_name_history(ctx: &mut Ctx, spans: &mut Spans, pool: usize, ops: &[NOp]) 
             break;
         }
     }
+    for r in std::mem::take(&mut w.routes_used) { ctx.stat(&format!("name_route:{r}")); }
     if poisoned { std::mem::forget(w); ctx.stat("name_histories_stopped_at_failure"); } else { drop(w); }
     if nontrivial { ctx.nontrivial(&fields.join(" ")); }
     ctx.stat("name_histories");
@@ -572,6 +614,7 @@ impl DOp {
 }
 
 struct NodeWorld {
+    route: usize,
     slots: Vec<Option<Node<Probe>>>,
     /// value semantics kept by the harness: what each slot must read
     shadow: Vec<Option<(u64, Option<Loc>)>>,
@@ -581,7 +624,7 @@ struct NodeWorld {
 
 impl NodeWorld {
     fn new(pool: usize) -> Self {
-        NodeWorld { slots: (0..pool).map(|_| None).collect(), shadow: vec![None; pool], live: Arc::new(()), fails: vec![] }
+        NodeWorld { route: 0, slots: (0..pool).map(|_| None).collect(), shadow: vec![None; pool], live: Arc::new(()), fails: vec![] }
     }
     fn fail(&mut self, key: &str, what: String) {
         if self.fails.len() < 4 { self.fails.push((key.to_string(), what)); }
@@ -597,14 +640,18 @@ impl NodeWorld {
                 let p = self.probe(*v);
                 self.slots[*d] = Some(match loc {
                     Some((f, s, l)) => Node::new_parsed(p, spans.get(*f, *s, *l)),
-                    None => Node::new(p),
+                    None => { self.route += 1; if self.route % 2 == 0 { Node::new(p) } else { Node::from(p) } }
                 });
                 self.shadow[*d] = Some((*v, loc.map(|(f, s, l)| (f, s as usize, l as usize))));
                 "ok"
             }
             DOp::Clone(d, s) => {
                 if !self.free(*d) || !self.held(*s) { return "skip"; }
-                self.slots[*d] = self.slots[*s].clone();
+                self.route += 1;
+                self.slots[*d] = if self.route % 2 == 0 { self.slots[*s].clone() } else {
+                    // `to_component` shares the allocation like a clone does
+                    Some(self.slots[*s].as_ref().unwrap().to_component(apollo_compiler::schema::ComponentOrigin::Definition).node)
+                };
                 self.shadow[*d] = self.shadow[*s];
                 "ok"
             }
@@ -987,10 +1034,90 @@ fn threads_nodes(ctx: &mut Ctx, threads: usize, per: usize) {
     ctx.stat("thread_runs_nodes");
 }
 
+/// Names longer than any length field narrower than the `u32` the representation uses (255/256, 65 535/65 536 bytes;
+/// one of them in two-byte characters, so that bytes ≠ chars): created, located, cloned, converted and dropped.
+fn long_name_histories(thorough: bool) -> Vec<(usize, Vec<NOp>)> {
+    use NOp::*;
+    let mut lens: Vec<usize> = vec![255, 256, 257, 65_536];
+    if thorough { lens.extend([4_096, 65_535, 65_537, 70_001]); }
+    let mut out = vec![];
+    for (k, len) in lens.into_iter().enumerate() {
+        let t: String = if k % 2 == 1 { "é".repeat(len / 2) } else { "a".repeat(len) };
+        let bytes = t.len() as u32;
+        out.push((2, vec![NewName(0, t.clone()), WithLoc(0, 5, 7, bytes), Clone(1, 0), Drop(0), IntoArc(0, 1)]));
+        if len <= 4_096 || thorough {
+            out.push((2, vec![NewArc(0, t.clone()), Clone(1, 0), FromArc(1, 0), WithLoc(1, MAX_ID, 100_000, bytes), ToClonedArc(0, 1), WithLoc(1, 3, 1, bytes - 1)]));
+            out.push((2, vec![NewChecked(0, t), Clone(1, 0), WithLoc(1, NONE_ID, 2, bytes), Drop(0)]));
+        }
+    }
+    out
+}
+
+/// `Node<str>` (the unsized flavour: header and text in one allocation, built by `from_header_and_str`) has its own
+/// constructors and conversions; it has no `make_mut` (`str` is not `Clone`). Value semantics only: text, location,
+/// equality / hash by text, `ptr_eq` exactly between clones, `get_mut` exactly when unshared.
+fn node_str_histories(ctx: &mut Ctx, spans: &mut Spans, n: usize) {
+    let texts = ["", "a", "é", "Query", "a b\n", "日本語のテキスト", "x".repeat(300).leak() as &str];
+    for _ in 0..n {
+        let pool = 2 + ctx.rng.below(4);
+        let mut slots: Vec<Option<(Node<str>, String, Option<Loc>, usize)>> = (0..pool).map(|_| None).collect();
+        let mut next_class = 0usize;
+        let mut desc = format!("Node<str> history, pool {pool}:");
+        for _ in 0..4 + ctx.rng.below(24) {
+            let (d, s) = (ctx.rng.below(pool), ctx.rng.below(pool));
+            match ctx.rng.below(10) {
+                0..=3 => if slots[d].is_none() {
+                    let t = ctx.rng.pick(&texts).to_string();
+                    let route = ctx.rng.below(5);
+                    let loc = if route == 0 { let (f, st, l) = (gen_fid(&mut ctx.rng), 1 + ctx.rng.below(30) as u32, 1 + ctx.rng.below(6) as u32); Some((f, st, l)) } else { None };
+                    let node: Node<str> = match route {
+                        0 => { let (f, st, l) = loc.unwrap(); Node::new_str_parsed(&t, spans.get(f, st, l)) }
+                        1 => Node::new_str(&t),
+                        2 => Node::from(t.as_str()),
+                        3 => Node::from(t.clone()),
+                        _ => Node::from(&t),
+                    };
+                    ctx.stat(&format!("node_str_route:{route}"));
+                    write!(desc, " new{route}({d},{t:?})").unwrap();
+                    slots[d] = Some((node, t, loc.map(|(f, st, l)| (f, st as usize, l as usize)), next_class));
+                    next_class += 1;
+                },
+                4..=6 => if slots[d].is_none() { if let Some((n, t, l, c)) = &slots[s] { write!(desc, " clone({d},{s})").unwrap(); slots[d] = Some((n.clone(), t.clone(), *l, *c)); } },
+                7 => if slots[d].is_none() { if let Some((n, t, l, _)) = &slots[s] {
+                    write!(desc, " same_location({d},{s})").unwrap();
+                    // a new allocation at the same location
+                    let m: Node<String> = n.same_location(t.clone());
+                    if loc_of(m.location()) != *l || *m != *t { ctx.fail("node-location", &desc, "same_location from a Node<str> lost the location or the value"); }
+                } },
+                _ => { write!(desc, " drop({s})").unwrap(); slots[s] = None; }
+            }
+            ctx.begin(&desc);
+            for i in 0..pool {
+                let shared = (0..pool).any(|j| j != i && matches!((&slots[i], &slots[j]), (Some(a), Some(b)) if a.3 == b.3));
+                let Some((n, t, l, c)) = &mut slots[i] else { continue };
+                if n.as_str() != t.as_str() || &**n != t.as_str() || String::from(&*n) != *t || n.to_string() != *t { ctx.fail("node-value", &desc, &format!("slot {i} reads {:?}, supplied {t:?}", n.as_str())); }
+                if loc_of(n.location()) != *l { ctx.fail("node-location", &desc, &format!("slot {i}: location {}, supplied {}", loc_str(loc_of(n.location())), loc_str(*l))); }
+                if hash_of(n) != hash_of(t.as_str()) { ctx.fail("node-eq-hash", &desc, &format!("slot {i}: hash differs from the hash of its text")); }
+                if n.get_mut().is_some() == shared { ctx.fail("node-unique", &desc, &format!("slot {i}: get_mut().is_some() = {} but shared = {shared}", !shared)); }
+                let _ = c;
+            }
+            for i in 0..pool { for j in i + 1..pool {
+                let (Some(a), Some(b)) = (&slots[i], &slots[j]) else { continue };
+                if a.0.ptr_eq(&b.0) != (a.3 == b.3) { ctx.fail("node-unique", &desc, &format!("slots {i},{j}: ptr_eq = {}, clones of one another = {}", a.0.ptr_eq(&b.0), a.3 == b.3)); }
+                if (a.0 == b.0) != (a.1 == b.1) { ctx.fail("node-eq-hash", &desc, &format!("slots {i},{j}: == is {}, texts {:?} {:?}", a.0 == b.0, a.1, b.1)); }
+            } }
+        }
+        ctx.stat("node_str_histories");
+    }
+}
+
 pub fn run(ctx: &mut Ctx) {
     let mut spans = Spans::new();
     // regression / hand-written histories first
     for (pool, h) in fixed_name_histories() { run_name_history(ctx, &mut spans, pool, &h); }
+    for (pool, h) in long_name_histories(ctx.thorough) { ctx.stat("family:long_name_histories"); run_name_history(ctx, &mut spans, pool, &h); }
+    let n_str = if ctx.thorough { 20_000 } else { 2_000 };
+    node_str_histories(ctx, &mut spans, n_str);
     // exhaustive small histories
     let k = if ctx.thorough { 4 } else { 3 };
     for len in 1..=k {
